@@ -18,13 +18,19 @@ import vlib, shimlib
 K_DESYNC = "raw/long-lived-handle/read-past-partial-sample-desynchronises"
 K_SIEHELD = "sie/long-lived-handle/stale-stdio-buffer-after-rewind"
 K_SIEZERO = "sie/writer/placeholder-zero-record-visible-before-data"
+K_TEXTHELD = "text/long-lived-handle/appended-lines-not-read-after-eof"
+K_TEXTPART = "text/partial-trailing-line-reported-as-frame"
+K_NOREF = "no-REFERENCE/metaflush-writes-REFERENCE-of-last-RAW/reference-field-changes"
 K_GZHELD = "gzip/long-lived-handle/frame-count-from-new-file-data-from-old-descriptor"
 SPF_A = 3
 
 
-def make_dirfile(d, enc, fa=2, fb=2, spf=SPF_A):
+def make_dirfile(d, enc, fa=2, fb=2, spf=SPF_A, noref=False):
     os.makedirs(d)
-    open(os.path.join(d, "format"), "w").write("/VERSION 9\n/ENDIAN little\n/ENCODING %s\na RAW INT16 %d\nb RAW UINT8 1\nhb CONST UINT32 0\n/REFERENCE a\n" % (enc, spf))
+    if noref:      # no /REFERENCE: the reference field is the FIRST RAW field (a); the last line is a RAW field too
+        open(os.path.join(d, "format"), "w").write("/VERSION 9\n/ENDIAN little\n/ENCODING %s\na RAW INT16 %d\nhb CONST UINT32 0\nb RAW UINT8 1\n" % (enc, spf))
+    else:
+        open(os.path.join(d, "format"), "w").write("/VERSION 9\n/ENDIAN little\n/ENCODING %s\na RAW INT16 %d\nb RAW UINT8 1\nhb CONST UINT32 0\n/REFERENCE a\n" % (enc, spf))
     da = struct.pack("<%dh" % (fa * spf), *[1000 + i for i in range(fa * spf)])
     db = bytes(i & 0xff for i in range(fb))
     if enc == "gzip":
@@ -136,7 +142,10 @@ def main():
             ("lib", "text", ["write", None, "p:a:%d" % (2500 + 3 * rng.randrange(40)), "s", "p:a:2400", "f"]),
             ("lib", "sie", ["write", None, "p:a:%d" % (1500 + 3 * rng.randrange(40)), "s", "p:a:1500", "f"]),
             ("lib", "sie", ["write", None, "p:a:%d" % (1400 + rng.randrange(100)), "s", "p:a:1300", "f"], 1),
-            ("lib", "gzip", ["write", None, "p:a:3000", "s", "p:a:3000", "f"])]
+            ("lib", "gzip", ["write", None, "p:a:3000", "s", "p:a:3000", "f"]),
+            ("lib", "text", ["write", None, "p:a:%d" % (2600 + rng.randrange(50)), "s", "p:a:1500", "f"], 1),
+            # no /REFERENCE directive: the reference field must stay the first RAW field across the writer's metadata flushes
+            ("lib", "none", ["write", None, "p:a:3", "h", "m", "p:a:6", "p:b:1", "f"], SPF_A, "noref")]
     if chk.thorough:
         scen.append(("lib", "bzip2", ["write", None, "p:a:6", "p:b:2", "s", "p:a:3", "f", "p:a:3", "p:b:1", "c", "p:a:6"]))
         scen.append(("lib", "lzma", ["write", None, "p:a:6", "p:b:2", "s", "p:a:3", "f", "p:a:3", "p:b:1", "c", "p:a:6"]))
@@ -150,8 +159,9 @@ def main():
     for sid, sc_ in enumerate(scen):
         kind, enc, cmd = sc_[:3]
         spf = sc_[3] if len(sc_) > 3 else SPF_A
+        noref = len(sc_) > 4 and sc_[4] == "noref"
         d = os.path.join(base, "s%d" % sid, "df")
-        make_dirfile(d, enc, spf=spf)
+        make_dirfile(d, enc, spf=spf, noref=noref)
         if enc in ("text", "sie"):
             vlib.sh([exe, "write", d, "p:a:%d" % (2 * spf), "p:b:2"], timeout=60)
         counts["by_kind"][kind + "/" + enc] = counts["by_kind"].get(kind + "/" + enc, 0) + 1
@@ -212,7 +222,7 @@ def main():
                                              label, p["hb"], p["he"], last_hb[0]), dict(desc, at=label, kind="impl-vs-spec", seen=p["raw"][:300])))
                     last_hb[0] = max(last_hb[0], p["hb"] or 0)
                 if p["nf"] < last_nf[tag]:
-                    spec_bad.append(("%s/%s/%s-nframes-decreases" % (kind, enc, tag), "%s reader %s: gd_nframes went from %d to %d" % (tag, label, last_nf[tag], p["nf"]),
+                    spec_bad.append((K_NOREF if noref else "%s/%s/%s-nframes-decreases" % (kind, enc, tag), "%s reader %s: gd_nframes went from %d to %d" % (tag, label, last_nf[tag], p["nf"]),
                                      dict(desc, at=label, kind="impl-vs-spec")))
                 last_nf[tag] = max(last_nf[tag], p["nf"])
                 a = p["fields"].get("a")
@@ -224,7 +234,8 @@ def main():
                 if p["nf"] > 0:
                     want = [1000 + i for i in range(p["nf"] * spf)]
                     if a is None or a["e"] != 0 or a["v"] != want:
-                        spec_bad.append((K_SIEZERO if (enc == "sie" and tag == "fresh" and a is not None and a["e"] == 0 and len(a["v"]) == len(want) and a["v"][:-1] == want[:-1] and a["v"][-1] == 0) else
+                        spec_bad.append((K_TEXTPART if (enc == "text" and a is not None and a["e"] == 0 and len(a["v"]) == len(want) and a["v"][:-1] == want[:-1] and str(want[-1]).startswith(str(a["v"][-1]))) else
+                                         K_SIEZERO if (enc == "sie" and tag == "fresh" and a is not None and a["e"] == 0 and len(a["v"]) == len(want) and a["v"][:-1] == want[:-1] and a["v"][-1] == 0) else
                                          K_SIEHELD if (enc == "sie" and tag == "held" and a is not None and a["e"] == 0) else K_GZHELD if (enc in ("gzip", "bzip2", "lzma") and tag == "held" and a is not None and a["e"] == 0 and a["v"] == want[:len(a["v"])]) else "%s/%s/%s-frames-differ" % (kind, enc, tag),
                                          "%s reader %s: %d frames reported but reading them gives %s (error %s) instead of the %d samples the writer wrote" % (
                                              tag, label, p["nf"], (a or {}).get("v", [])[:12], (a or {}).get("e"), len(want)), dict(desc, at=label, kind="impl-vs-spec", seen=p["raw"][:600])))
@@ -276,6 +287,37 @@ def main():
                 nontriv.add((sid, "sie-state", last))
         if sid < 3:
             chk.sample({"scenario": desc, "stops": len(stops), "nframes_seen_by_fresh_reader": [o[1].get("nf") for o in obs][:40]})
+    # ---------------------------------------------------------------- the long-running reader (soak): one handle polled for
+    # hundreds of rounds (idle polls asking for no new frames, polls on a still-empty dirfile), resources must stay constant
+    rounds = 300 if not chk.thorough else 1500
+    for enc in ("none", "text", "sie", "gzip", "bzip2", "lzma"):
+        d = os.path.join(base, "soak-" + enc)
+        os.makedirs(d)
+        open(os.path.join(d, "format"), "w").write("/VERSION 9\n/ENDIAN little\n/ENCODING %s\na RAW INT16 %d\n/REFERENCE a\n" % (enc, SPF_A))
+        rc, out = vlib.sh([exe, "soak", d, str(rounds)], timeout=600)
+        chk.cov["evaluations"] += rounds
+        counts["soak_rounds"] = counts.get("soak_rounds", 0) + rounds
+        m = re.search(r"soak rounds (\d+) nf (-?\d+) written_frames (-?\d+) fdmin (-?\d+) fdmax (-?\d+) recmax (-?\d+) bad (\d+) first_bad (-?\d+) errs (\d+) first_err (-?\d+) errcode (-?\d+) nfdec (\d+)", out)
+        sdesc = {"kind": "impl-vs-spec", "encoding": enc, "rounds": rounds,
+                 "how": "harness/C18/app soak DIR %d   (DIR/format: ENCODING %s, a RAW INT16 %d, no data yet; a writer handle of the same process appends 0..4 samples per round and flushes)" % (rounds, enc, SPF_A)}
+        if rc != 0 or not m:
+            spec_bad.append(("soak/%s/crash" % enc, "long-running reader on %s data: the process died or hung (rc %d): %s" % (enc, rc, out[-200:]), sdesc)); continue
+        g = [int(x) for x in m.groups()]
+        _, nf, wf, fdmin, fdmax, recmax, bad, first_bad, errs, first_err, errcode, nfdec = g
+        nontriv.add(("soak", enc, nf, bad > 0))
+        if fdmin != fdmax:
+            spec_bad.append(("soak/%s/descriptor-count-grows" % enc, "long-running reader on %s data: the number of open descriptors went from %d to %d over %d polls" % (enc, fdmin, fdmax, rounds), sdesc))
+        if recmax != 0:
+            spec_bad.append(("soak/%s/recurse-level-leaks" % enc, "long-running reader on %s data: D->recurse_level reached %d between calls" % (enc, recmax), sdesc))
+        if errs:
+            spec_bad.append(("soak/%s/poll-fails" % enc, "long-running reader on %s data: %d polls failed (first in round %d, error %d) after data had been written" % (enc, errs, first_err, errcode), sdesc))
+        if nfdec or nf != wf:
+            spec_bad.append(("soak/%s/nframes" % enc, "long-running reader on %s data: gd_nframes decreased %d times / ends at %d while %d frames were written" % (enc, nfdec, nf, wf), sdesc))
+        if bad:
+            key = {"text": K_TEXTHELD, "sie": K_SIEHELD}.get(enc, K_GZHELD if enc != "none" else "soak/none/frames-not-readable")
+            mb = re.search(r"soakbad (.*)", out)
+            spec_bad.append((key, "long-running reader on %s data: in %d of %d polls the frames reported by gd_nframes could not be read back through the same handle (first: %s)" % (
+                enc, bad, rounds, mb.group(1) if mb else "?"), sdesc))
     if mlines:
         rcm, mout = vlib.sh([drv], inp=("\n".join(mlines) + "\n").encode(), timeout=600)
         blocks = mout.split("E\n")
